@@ -11,6 +11,7 @@ import (
 	"github.com/compose-spec/compose-go/v2/types"
 
 	"verifh/core"
+	"verifh/mapctl"
 	"verifh/schemagen"
 )
 
@@ -347,6 +348,11 @@ func c01files(c *core.Ctx) {
 				}
 				return missingOf(pr, "inc/deep/two.yaml")
 			}},
+		{name: "shared-env-file", files: map[string]string{
+			// the same file is optional for one service and required for another: it is required
+			"compose.yaml": "services:\n  a:\n    image: i\n    env_file:\n      - {path: ./shared.env, required: false}\n  b:\n    image: i\n    env_file: [./shared.env]\n  c:\n    image: i\n    env_file:\n      - {path: ./shared.env, required: false}\n",
+			"shared.env":   "A=1\n"}, main: []string{"compose.yaml"},
+			deps: func(pr func(string) bool) []string { return missingOf(pr, "compose.yaml", "shared.env") }},
 		{name: "env-label-files", files: map[string]string{
 			"compose.yaml": "services:\n  s:\n    image: i\n    env_file:\n      - ./req.env\n      - {path: ./opt.env, required: false}\n    label_file: [./l.labels]\n",
 			"req.env":      "A=1\n", "opt.env": "B=2\n", "l.labels": "l=1\n"}, main: []string{"compose.yaml"},
@@ -382,6 +388,23 @@ func c01files(c *core.Ctx) {
 				s := &Scn{Files: files, Main: fs.main, Opts: fs.opts}
 				root := s.Materialise()
 				p, err := s.LoadAt(root)
+				// services are visited in map order: the outcome class must be the same under every rotation
+				for k := uintptr(1); k < 8; k++ {
+					mapctl.SetUniform(k)
+					p2, err2 := s.LoadAt(root)
+					mapctl.SetUniform(0)
+					if (err2 == nil) != (err == nil) {
+						os.RemoveAll(root)
+						return core.Outcome{Class: "order", Sample: map[string]any{"case": id, "state": state}, Viol: &core.Violation{Key: "missing-file-outcome-depends-on-order:" + fs.name,
+							Msg: fmt.Sprintf("%s: with files in state %v the load gives err=%v under one map iteration order and err=%v under another", id, state, err, err2)}}
+					}
+					if err != nil && err2 == nil {
+						p = p2
+					}
+					if err2 != nil && err == nil {
+						err = err2
+					}
+				}
 				os.RemoveAll(root)
 				sample := map[string]any{"case": id, "state": state}
 				if pe, ok := err.(*core.PanicError); ok {
